@@ -12,6 +12,11 @@ Oracles    : implementation only, judged by harness/lib/sqlref.py (plain Python,
                edges      per column type: empty / NULL-only / NULL-containing value sets, comparisons with NULL,
                           between with NULL or reversed bounds, every is_null alias, conjunctions, all-pruned
                corpus     the hand-confirmed failing inputs (F-C12 NaN pushdown, malformed filter on an empty table)
+Findings   : two defects of the unchanged tree (findings/C12-unchanged-tree.log, findings/C12-replay-*.json), both repaired on
+             the library branch: (1) scan(filter, verify_checksums=False) pushed the filter into pq.read_table, whose row-group
+             statistics ignore NaN; (2) scan() accepted malformed filters on an empty table and scan_batches() skipped building
+             the expression when every file was pruned.  Open (modelled, C12_api_agree_empty_projection_refuted, excluded from
+             the oracle): scan(columns=[]) returns no rows (pa.concat_tables) while the batch APIs yield one {} per row.
 Tie        : correspondence of every hand-written model piece with the real code:
                prims      every cexpr constructor evaluated by real pyarrow     vs Model/Filter.v eval3
                parse      filters.parse_filter_dict                              vs parse (uses Gen tables)
